@@ -3,7 +3,7 @@
 Every function here runs the *real* dliswriter code (loaded from /repo/src by vf.loader); only struct.Struct objects,
 byte contents (Rope) and the file (MemWriter) are stubbed (DESIGN 2.3).
 """
-from vf.harness.common import THOROUGH, Rope, flat, lits, RepC
+from vf.harness.common import THOROUGH, Rope, flat, lits, RepC, pad_info
 
 from dliswriter.logical_record.core.logical_record.logical_record_bytes import LogicalRecordBytes
 from dliswriter.logical_record.misc.storage_unit_label import StorageUnitLabel
@@ -64,14 +64,13 @@ def seg_check(L, cap, is_eflr, t, segs):
         blen = f[4][3] - f[4][2]
         if blen < 1:
             return 9
-        npad = len(f) - 5
-        for k in range(5, len(f)):
-            if f[k][0] != 'b':
-                return 7
+        (npad, lastpad) = pad_info(f[5:])
+        if npad < 0:
+            return 7
         if pad == 1:
             if npad < 1:
                 return 8
-            if f[len(f) - 1][1] != npad:
+            if lastpad != npad:
                 return 8
         else:
             if npad != 0:
